@@ -60,6 +60,8 @@ ASSUMPTIONS = [
 E = {"ia": 3, "ib": 5, "ic": -2, "sa": "x'y", "sb": "q", "la": [4, 5, 6], "lb": [7, 8, 9], "da": {"a": 1, "b": 2},
      "ba": True, "ga": "@Echo", "ma": ["@Mat", 1], "mb": ["@Mat", 2], "x": 4, "n": 6, "h": 8, "u": 9}
 
+SQ3, DQ3 = "'" * 3, '"' * 3
+
 FINDINGS = {
     # ---- ExpressionGenerator / SourceGenerator (mako/_ast_util.py) --------------------------------------
     "C19-binop-symbols-missing": dict(flags=["pow", "matmul"], expr=[
@@ -80,6 +82,21 @@ FINDINGS = {
     "C19-call-double-star": dict(flags=["call_dstar"], expr=["fpick(**da)", "dict(**da)", "fpick(1, ka=2, **da)"]),
     "C19-attr-on-int-literal": dict(flags=["attr_on_int"], expr=["(1).real", "(7).bit_length()", "(10).imag"]),
     "C19-tuple-slice": dict(flags=["tuple_slice"], expr=["ga[1:2, 3]", "ga[::2, ia]", "ga[ia, 1:]"]),
+    # ---- re-margining (mako/pygen.py) ------------------------------------------------------------------
+    "C19-adjust-whitespace-literal-scan": dict(
+        flags=["m_hash_then_triple", "m_phantom_triple", "m_escaped_quote_run"],
+        margin=[("v1 = '#' + " + DQ3 + "a\n~b" + DQ3 + "\nv2 = 1", ["v1", "v2"], ["    ", "\t"], ["<%!"], ["margined"]),
+                ("v1 = '" + DQ3 + "'\nv2 = 1", ["v1", "v2"], ["    ", " \t  "], ["<%!"], ["raw"]),
+                ("v1 = " + DQ3 + "a\\" + DQ3 + "b" + DQ3 + "\nv2 = 1", ["v1", "v2"], ["  "], ["<%!"], ["raw"])]),
+    "C19-printer-triple-quote-count": dict(
+        flags=["m_mixed_triple_line", "m_phantom_triple", "m_escaped_quote_run"],
+        margin=[("v1 = " + SQ3 + "a" + DQ3 + "b" + SQ3 + "\nv2 = 1", ["v1", "v2"], [""], ["<%"], ["raw"]),
+                ("v1 = " + SQ3 + "a" + DQ3 + "\n~b" + SQ3 + "\nv2 = 1", ["v1", "v2"], [""], ["<%"], ["raw"]),
+                ("v1 = '" + DQ3 + "'\nv2 = 1", ["v1", "v2"], [""], ["<%"], ["raw"])]),
+    "C19-expandtabs-alters-literals": dict(
+        flags=["m_raw_tab"],
+        margin=[("v1 = 'a\tb'", ["v1"], ["", "  "], ["<%", "<%!"], ["raw"]),
+                ("if True:\n    v1 = " + DQ3 + "x\ty" + DQ3, ["v1"], ["", "\t"], ["<%"], ["raw"])]),
     # ---- which names are fetched from the context (mako/pyparser.py FindIdentifiers, parsetree, codegen) -------
     "C19-function-params": dict(
         flags=["fn_param_kinds"], expr_positions=["filter-arg", "filter-kwarg"],
@@ -104,6 +121,9 @@ FINDINGS = {
     "C19-comprehension-var-leaks": dict(
         flags=["comp_var_reuse"],
         block=["v1 = [ia for ia in la]\nv2 = ia", "def g1():\n    v3 = [ia for ia in la]\n    return ia\nv1 = g1()"]),
+    "C19-strict-lookup-shadowed-keyerror": dict(
+        flags=["keyerror_name"],
+        block=["try:\n    v1 = da['zz']\nexcept KeyError:\n    v1 = ia", "v1 = ia\nv2 = KeyError"]),
     "C19-comprehension-var-in-args": dict(
         flags=["comp_strict"], expr_positions=["filter-arg", "def-filter-arg", "text-filter-arg"],
         expr=["[c1 for c1 in (1, 2)]", "sum(c1 for c1 in la)", "{c1: c2 for c1, c2 in da.items()}"]),
@@ -175,7 +195,7 @@ def regen_checks(src):
     else:
         cmp("ExpressionGenerator", text, None, "eval")
     # (b) FunctionDecl.get_argument_expressions: positional and keyword-only defaults
-    decl = "def f(a=%s, *r, k=%s):pass" % (src, src)
+    decl = "def f(a=%s, b=1, *r, k=%s, j=2, **w):pass" % (src, src)
     try:
         parts = mast.FunctionDecl(decl, **kw).get_argument_expressions()
     except Exception as e:  # noqa: BLE001
@@ -405,7 +425,7 @@ STUB_POSITIONS = {"def-default", "def-kwonly-default", "block-arg", "nested-def-
 
 
 def shard_expr(task):
-    seed, n, flags, known_ids, every = task
+    seed, n, flags, known_ids, every, emit = task
     core.setup_repo()
     warnings.simplefilter("ignore")
     ev = core.Evidence()
@@ -435,10 +455,11 @@ def shard_expr(task):
             raise AssertionError("generator produced a disabled construct")
         labels = ["n:" + k for k in sorted(kinds)] + ["f:" + f for f in sorted(feats)] + ["pos:" + p for p in pos]
         nt = bool(feats & pygram.PRECEDENCE_FEATURES)
-        labels.append("strict" if strict else "non-strict")
+        if pos:
+            labels.append("rendered:strict" if strict else "rendered:non-strict")
         ev.case(key=(src, pos), nontrivial=nt, labels=labels)
-        if nt and 30 < len(src) < 160:
-            ev.sample({"part": "expr", "src": src, "env": case.envspec, "positions": pos}, "expr%d" % (len(ev.samples)))
+        if nt and pos and 30 < len(src) < 160 and emit and not ev.samples:
+            ev.sample({"part": "expr", "src": src, "env": case.envspec, "positions": pos, "strict": strict}, "expr%d" % (seed % 2))
         try:
             check_expr(src, case.envspec, pos, strict=strict)
         except Failure as f:
@@ -460,23 +481,24 @@ def shard_expr(task):
     return ev, fails
 
 
-def run_expr(ctx):
+def tasks_expr(ctx, off_stmt):
     disabled, fails, counts = run_probes("expr")
     for f in fails:
         ctx.fail(f)
     for k, v in counts.items():
         ctx.ev.excluded_known[k] += v
+    disabled = set(disabled) | set(off_stmt)
     ctx.ev.notes["expr_flags_off"] = sorted(disabled)
-    flags = sorted(pygram.ALL_FLAGS | FLAG_OFF_POSITIONS - set(disabled))
     flags = sorted((set(pygram.ALL_FLAGS) | FLAG_OFF_POSITIONS) - set(disabled))
-    n = ctx.pick(190, 9000)
+    n = ctx.pick(400, 9000)
+    every = ctx.pick(2, 5)
     # behind-the-findings campaign: the constructs with failing probes are not generated
-    ctx.pmap(shard_expr, [(ctx.shard_seed(i, "expr"), n, flags, [], ctx.pick(2, 5)) for i in range(16)])
+    tasks = [("expr", (ctx.shard_seed(i, "expr"), n, flags, [], every, i < 2)) for i in range(16)]
     # full-grammar campaign: failures on a case containing a construct with failing probes are counted, not reported
     if disabled:
         allf = sorted(set(pygram.ALL_FLAGS) | FLAG_OFF_POSITIONS)
-        ctx.pmap(shard_expr, [(ctx.shard_seed(i, "exprfull"), ctx.pick(40, 1500), allf, sorted(counts), ctx.pick(2, 5))
-                              for i in range(16)])
+        tasks += [("expr", (ctx.shard_seed(i, "exprfull"), ctx.pick(80, 1500), allf, sorted(FINDINGS), every, False)) for i in range(16)]
+    return tasks
 
 
 # ---------------------------------------------------------------------------------------------------------
@@ -552,6 +574,68 @@ def check_block(block, envspec, outs, finding=None, max_removed=4):
     return need
 
 
+def minimize_block(f):
+    """Statement-level reduction of a failing block (same failure key); hypothesis shrinking is too slow here."""
+    case = f.case
+    best = f
+    changed = True
+    rounds = 0
+    while changed and rounds < 6:
+        changed = False
+        rounds += 1
+        tree = ast.parse(best.case["src"])
+        paths = []
+
+        def visit(body, path):
+            for i, st_ in enumerate(body):
+                paths.append(path + [i])
+                for fld in ("body", "orelse", "finalbody"):
+                    sub = getattr(st_, fld, None)
+                    if isinstance(sub, list) and sub and isinstance(sub[0], ast.stmt):
+                        visit(sub, path + [i, fld])
+                for h in getattr(st_, "handlers", []):
+                    visit(h.body, path + [i, "handlers", st_.handlers.index(h)])
+        visit(tree.body, [])
+        for path in sorted(paths, key=len):
+            t2 = ast.parse(best.case["src"])
+            body = t2.body
+            ok = True
+            try:
+                cur = body
+                for step in path[:-1]:
+                    if isinstance(step, int):
+                        cur = cur[step]
+                    elif step == "handlers":
+                        cur = cur.handlers
+                    else:
+                        cur = getattr(cur, step)
+                    if isinstance(cur, ast.ExceptHandler):
+                        cur = cur.body
+                if not isinstance(cur, list) or path[-1] >= len(cur):
+                    continue
+                del cur[path[-1]]
+                if not cur:
+                    cur.append(ast.Pass())
+                src2 = ast.unparse(ast.fix_missing_locations(t2))
+                stored = {n.id for n in ast.walk(t2) if isinstance(n, ast.Name) and isinstance(n.ctx, ast.Store)}
+            except Exception:  # noqa: BLE001
+                ok = False
+            if not ok or src2 == best.case["src"]:
+                continue
+            outs2 = [o for o in best.case["outs"] if o in stored]
+            try:
+                check_block(src2, case["env"], outs2, finding=case.get("finding"))
+            except Failure as f2:
+                if f2.key == f.key:
+                    best = f2
+                    changed = True
+                    break
+            except Exception:  # noqa: BLE001 - an invalid reduction (e.g. environment no longer sufficient)
+                continue
+    best.info.update(f.info)
+    return best
+
+
 def _probe_block(probe, fid_):
     names = {n.id for n in ast.walk(ast.parse(probe)) if isinstance(n, ast.Name)}
     spec = {k: v for k, v in E.items() if k in names}
@@ -585,21 +669,33 @@ def block_labels(src):
     return feats, kinds, in_fn
 
 
+def _hang_guard(seconds=120):
+    """generated code is built to terminate; if it does not, that is a harness error (exit 2), never a verdict"""
+    import signal
+
+    def boom(*a):
+        raise core.HarnessError("a generated case ran for more than %d s" % seconds)
+
+    signal.signal(signal.SIGALRM, boom)
+    signal.alarm(seconds)
+
+
 def shard_block(task):
-    seed, n, flags, known_ids = task
+    seed, n, flags, known_ids, emit = task
     core.setup_repo()
     warnings.simplefilter("ignore")
     ev = core.Evidence()
     flags = frozenset(flags)
 
     def check(c):
+        _hang_guard()
         feats, kinds, in_fn = block_labels(c.src)
         nt = bool(feats & PARAM_FEATS) or bool(in_fn)
         labels = ["s:" + k for k in sorted(kinds) if k in STMT_KINDS] + ["par:" + f for f in sorted(feats & PARAM_FEATS)] + \
                  ["b:" + f for f in sorted(in_fn)] + ["b:" + f for f in c.feats if not f.startswith("par:")]
         ev.case(key=c.src, nontrivial=nt, labels=labels)
-        if nt and 3 < c.src.count("\n") < 14:
-            ev.sample({"part": "block", "src": c.src, "env": c.envspec, "outs": c.outs}, "block%d" % min(len(ev.samples), 1))
+        if nt and 3 < c.src.count("\n") < 14 and emit and not ev.samples:
+            ev.sample({"part": "block", "src": c.src, "env": c.envspec, "outs": c.outs}, "block%d" % (seed % 2))
         try:
             need = check_block(c.src, c.envspec, c.outs)
             ev.label("b:free-names=%d" % min(len(need), 6))
@@ -615,11 +711,15 @@ def shard_block(task):
                 hit.append("C19-function-local-bound-later")
             if kinds & {"ListComp", "SetComp", "DictComp", "GeneratorExp"}:
                 hit.append("C19-comprehension-var-leaks")
+            if "KeyError" in c.src:
+                hit.append("C19-strict-lookup-shadowed-keyerror")
             f.info["kid"] = next((h for h in hit if h in known_ids), None)
-            raise
+            if f.info["kid"] is None:
+                f = minimize_block(f)
+            raise f
 
     fails, found = core.hyp_search(pygram.blocks(flags=flags), check, ev, seed, n, classify=lambda f: f.info.get("kid"),
-                                   known={k: 1 for k in known_ids})
+                                   known={k: 1 for k in known_ids}, shrink=False)
     return ev, fails
 
 
@@ -628,32 +728,433 @@ STMT_KINDS = {"Assign", "AugAssign", "For", "While", "If", "Try", "With", "Impor
               "NamedExpr", "Expr", "Pass"}
 
 
-def run_block(ctx):
+def tasks_block(ctx, off_expr):
     disabled, fails, counts = run_probes("block")
-    # the same generator flags are switched off by failing expression-side probes of these findings
-    d2, _, _ = run_probes("expr")
     for f in fails:
         ctx.fail(f)
     for k, v in counts.items():
         ctx.ev.excluded_known[k] += v
-    off = set(disabled) | (set(d2) & set(pygram.STMT_FLAGS))
+    # the same generator flags are switched off by failing expression-side probes of these findings
+    off = set(disabled) | (set(off_expr) & set(pygram.STMT_FLAGS))
     ctx.ev.notes["block_flags_off"] = sorted(off)
     flags = sorted(set(pygram.ALL_FLAGS) - off - {"escape_names"})
-    n = ctx.pick(45, 1900)
-    ctx.pmap(shard_block, [(ctx.shard_seed(i, "block"), n, flags, []) for i in range(16)])
+    n = ctx.pick(120, 1900)
+    tasks = [("block", (ctx.shard_seed(i, "block"), n, flags, [], i < 2)) for i in range(16)]
     if off:
-        ctx.pmap(shard_block, [(ctx.shard_seed(i, "blockfull"), ctx.pick(8, 300), sorted(pygram.ALL_FLAGS - {"escape_names"}),
-                                sorted(FINDINGS)) for i in range(16)])
+        tasks += [("block", (ctx.shard_seed(i, "blockfull"), ctx.pick(24, 300), sorted(pygram.ALL_FLAGS - {"escape_names"}),
+                             sorted(FINDINGS), False)) for i in range(16)]
+    return tasks, off
+
+
+# ---------------------------------------------------------------------------------------------------------
+# part 3: re-margining of <% %> / <%! %> blocks
+# ---------------------------------------------------------------------------------------------------------
+MARGIN_FLAGS = ["m_hash_then_triple", "m_phantom_triple", "m_mixed_triple_line", "m_raw_tab", "m_escaped_quote_run"]
+PLAIN_ATOMS = ["a", "b", "Z", " ", "  ", "#", "# ", "0", ":", "é", "=", "(", "]", ","]
+ESC_ATOMS = ["\\\\", "\\n", "\\t", "\\x41"]
+TQ = {"'": "'" * 3, '"': '"' * 3}
+
+
+class MarginGen:
+    """Text-level builder of a block: lines are [kind, level, text] with kind code | cont | str | blank."""
+
+    def __init__(self, draw, flags):
+        from hypothesis import strategies as st
+
+        self.st = st
+        self.draw = draw
+        self.flags = flags
+        self.lines = []
+        self.counter = 0
+        self.feats = set()
+
+    def n(self, k):
+        return self.draw(self.st.integers(0, k - 1))
+
+    def chance(self, pct):
+        return self.n(100) >= 100 - pct
+
+    def pick(self, seq):
+        return seq[self.n(len(seq))]
+
+    def on(self, f):
+        return f in self.flags
+
+    def var(self, stem="v"):
+        self.counter += 1
+        return "%s%d" % (stem, self.counter)
+
+    # -- literals -----------------------------------------------------------------------------------------
+    def content(self, quote, triple, raw, hash_ok=True):
+        """-> physical-line fragments of the literal body (more than one only for multi-line literals)"""
+        other = '"' if quote == "'" else "'"
+        frags = [""]
+        for _ in range(self.n(7)):
+            k = self.n(12)
+            if k <= 3:
+                atom = self.pick(PLAIN_ATOMS)
+                if "#" in atom and not hash_ok:
+                    atom = "h"
+                frags[-1] += atom
+            elif k == 4:
+                if frags[-1].endswith(other * 2):
+                    frags[-1] += "-"   # never three in a row by accident: that is the separate construct below
+                frags[-1] += other
+            elif k == 5:
+                frags[-1] += ("\\" + self.pick(["d", "w", " "])) if raw else self.pick(ESC_ATOMS)
+            elif k == 6:
+                if not raw and not frags[-1].endswith("\\"):
+                    frags[-1] += "\\" + quote
+                    if not (triple and self.on("m_escaped_quote_run")):
+                        frags[-1] += "-"
+            elif k == 7 and triple:
+                if not frags[-1].endswith(quote) and not frags[-1].endswith("\\"):
+                    frags[-1] += quote + "-"   # a lone quote of the same kind inside a triple-quoted literal
+            elif k == 8:
+                if (not triple and self.on("m_phantom_triple")) or (triple and self.on("m_mixed_triple_line")):
+                    frags[-1] += other * 3 + "-"      # three quotes of the other kind
+                    self.feats.add("other-triple-inside-" + ("triple" if triple else "single"))
+            elif k == 9 and self.on("m_raw_tab"):
+                frags[-1] += "\t"
+                self.feats.add("raw-tab-in-literal")
+            elif k >= 10 and triple:
+                frags.append(self.pick(["", " ", "    ", "  # ", "        ", "x"]))
+                self.feats.add("multiline-string")
+            elif k >= 10 and not raw and self.chance(40):
+                # backslash-newline inside a single-quoted literal: the next physical line is content
+                if not frags[-1].endswith("\\"):
+                    frags[-1] += "\\"
+                    frags.append(self.pick(["", "  ", "      ", "y"]))
+                    self.feats.add("backslash-newline-in-string")
+        last = frags[-1]
+        if last.endswith(quote) or last.endswith("\\"):
+            frags[-1] += "."
+        return frags
+
+    def literal(self, hash_ok=True):
+        quote = self.pick(["'", '"'])
+        triple = self.chance(40)
+        raw = self.chance(15)
+        frags = list(self.content(quote, triple, raw, hash_ok))
+        q = TQ[quote] if triple else quote
+        frags[0] = ("r" if raw else "") + q + frags[0]
+        frags[-1] = frags[-1] + q
+        self.feats.add(("triple" if triple else "single") + "-quoted")
+        return frags, triple
+
+    def expr(self):
+        """-> physical lines of an expression: [(kind, text)], the first goes on the statement line"""
+        k = self.n(10)
+        if k <= 3:
+            fr, _ = self.literal()
+            return [("code", fr[0])] + [("str", f) for f in fr[1:]]
+        if k == 4:
+            # two literals on one statement; the first is kept free of '#' unless that construct is enabled
+            b, btriple = self.literal()
+            a, _ = self.literal(hash_ok=self.on("m_hash_then_triple") or not (btriple and len(b) > 1))
+            out = [("code", a[0])] + [("str", f) for f in a[1:]]
+            kind, last = out[-1]
+            out[-1] = (kind, last + " + " + b[0])
+            out += [("str", f) for f in b[1:]]
+            self.feats.add("two-literals")
+            return out
+        if k == 5:
+            self.feats.add("backslash-continuation")
+            if self.chance(50):
+                return [("code", "1 + \\"), ("cont", "2")]
+            return [("code", "'a' \\"), ("cont", "'b' + \\"), ("cont", "'c'")]
+        if k == 6 or k == 7:
+            self.feats.add("bracket-continuation")
+            op, cl = self.pick([("[", "]"), ("(", ")"), ("{", "}")])
+            out = [("code", op)]
+            for i in range(1 + self.n(3)):
+                fr, _ = self.literal()
+                out.append(("cont", fr[0]))
+                out += [("str", f) for f in fr[1:]]
+                kind, last = out[-1]
+                out[-1] = (kind, last + ",")
+            out.append(("cont", cl))
+            return out
+        if k == 8:
+            self.feats.add("implicit-concat")
+            a, _ = self.literal()
+            b, _ = self.literal()
+            out = [("code", "(" + a[0])] + [("str", f) for f in a[1:]]
+            out.append(("cont", b[0]))
+            out += [("str", f) for f in b[1:]]
+            kind, last = out[-1]
+            out[-1] = (kind, last + ")")
+            return out
+        return [("code", str(self.n(100)))]
+
+    def assign(self, level):
+        v = self.var()
+        ex = self.expr()
+        for i, (kind, text) in enumerate(ex):
+            if i == 0:
+                self.lines.append(["code", level, "%s = %s" % (v, text)])
+            else:
+                self.lines.append([kind, level, text])
+        if len(ex) == 1 and self.chance(12):
+            self.lines[-1][2] += "  # note " + self.pick(["1", "it", "x = y"])
+        return v
+
+    def stmts(self, level, n, depth):
+        out = []
+        for _ in range(n):
+            k = self.n(12)
+            if self.chance(10):
+                self.lines.append(["code", level, "# " + self.pick(["c", "plain comment", "x: y"])])
+            if self.chance(8):
+                self.lines.append(["blank", 0, self.pick(["", "", "  "])])
+            if k <= 6 or depth <= 0:
+                out.append(self.assign(level))
+            elif k == 7:
+                self.lines.append(["code", level, "if True:"])
+                out += self.stmts(level + 1, 1 + self.n(2), depth - 1)
+                if self.chance(40):
+                    self.lines.append(["code", level, "else:"])
+                    self.lines.append(["code", level + 1, "pass"])
+                self.feats.add("nested-if")
+            elif k == 8:
+                self.lines.append(["code", level, "for %s in range(2):" % self.var("i")])
+                out += self.stmts(level + 1, 1 + self.n(2), depth - 1)
+                self.feats.add("nested-for")
+            elif k == 9:
+                f = self.var("f")
+                self.lines.append(["code", level, "def %s():" % f])
+                inner = self.stmts(level + 1, 1 + self.n(2), depth - 1)
+                self.lines.append(["code", level + 1, "return (%s)" % "".join(x + ", " for x in inner)])
+                v = self.var()
+                self.lines.append(["code", level, "%s = %s()" % (v, f)])
+                out.append(v)
+                self.feats.add("nested-def")
+            elif k == 10:
+                self.lines.append(["code", level, "try:"])
+                out += self.stmts(level + 1, 1, depth - 1)
+                self.lines.append(["code", level, "except Exception:"])
+                self.lines.append(["code", level + 1, "pass"])
+                self.feats.add("nested-try")
+            else:
+                out.append(self.assign(level))
+        return out
+
+
+def render_lines(lines, margin, unit, strmode, contmode):
+    out = []
+    for kind, level, text in lines:
+        if kind == "code":
+            out.append(margin + unit * level + text)
+        elif kind == "cont":
+            if contmode == "flush":
+                out.append(text)
+            elif contmode == "deep":
+                out.append(margin + unit * level + "        " + text)
+            else:
+                out.append(margin + unit * level + text)
+        elif kind == "str":
+            out.append((margin if strmode == "margined" else "") + text)
+        else:
+            out.append(text)
+    return "\n".join(out)
+
+
+def margin_strategy(flags):
+    from hypothesis import strategies as st
+
+    flags = frozenset(flags)
+
+    @st.composite
+    def build(draw):
+        g = MarginGen(draw, flags)
+        vars_ = g.stmts(0, 1 + g.n(5), 2)
+        mk = g.pick(["spaces", "tabs", "mixed", "spaces", "none"])
+        if mk == "none":
+            margin = ""
+        elif mk == "spaces":
+            margin = " " * (1 + g.n(12))
+        elif mk == "tabs":
+            margin = "\t" * (1 + g.n(3))
+        else:
+            margin = "".join(g.pick([" ", "\t", "  "]) for _ in range(1 + g.n(4)))[:12]
+            if " " not in margin or "\t" not in margin:
+                margin = " \t" + margin[:10]
+        unit = g.pick(["    ", "    ", "  ", "\t"])
+        strmode = g.pick(["margined", "raw"])
+        contmode = g.pick(["aligned", "flush", "deep"])
+        tag = g.pick(["<%", "<%!", "<%"])
+        closing = g.pick(["\n%>", "\n" + margin + "%>", "\n" + margin + "\n%>"])
+        text = render_lines(g.lines, margin, unit, strmode, contmode)
+        return {"part": "margin", "block": text, "margin": margin, "tag": tag, "closing": closing, "vars": vars_,
+                "meta": {"margin_kind": mk, "strmode": strmode, "contmode": contmode, "unit": unit, "feats": sorted(g.feats)}}
+
+    return build()
+
+
+def margin_reference(case):
+    src = case["block"]
+    if case["margin"]:
+        src = "if 1:\n" + src
+    g = {}
+    exec(compile(src + "\n", "<block as written>", "exec"), g)
+    return ("ok", pygram.canon(tuple(g[v] for v in case["vars"])))
+
+
+def check_margin(case, finding=None):
+    from mako.template import Template
+
+    case = {k: case[k] for k in ("part", "block", "margin", "tag", "closing", "vars")}
+    if finding:
+        case["finding"] = finding
+
+    def fail(kind, detail):
+        raise Failure(case, "block %r at margin %r in %s: %s" % (case["block"], case["margin"], case["tag"], detail),
+                      finding or ("p3:" + kind))
+
+    want = margin_reference(case)
+    text = "%s\n%s%s${rec_((%s))}" % (case["tag"], case["block"], case["closing"], "".join(v + ", " for v in case["vars"]))
+    box = []
+
+    def rec_(v):
+        box.append(v)
+        return ""
+
+    try:
+        t = Template(text, uri=_uri("m"), strict_undefined=True)
+        t.render_unicode(rec_=rec_)
+    except Exception as e:  # noqa: BLE001
+        fail("raised:" + type(e).__name__, "CPython computes %r; the template raised %s: %s" % (want, type(e).__name__, str(e)[:200]))
+    got = ("ok", pygram.canon(box[0])) if len(box) == 1 else ("exc", "rec_ called %d times" % len(box))
+    if got != want:
+        fail("value-differs", "CPython computes %r for the block as written, the template %r" % (want, got))
+
+
+def margin_features(block):
+    """constructs with a finding of their own, recognised on the block text with CPython's tokenizer"""
+    import io
+    import tokenize
+
+    feats = set()
+    try:
+        toks = list(tokenize.generate_tokens(io.StringIO(block + "\n").readline))
+    except Exception:  # noqa: BLE001
+        return feats
+    strings = [tk for tk in toks if tk.type == tokenize.STRING]
+    for tk in strings:
+        body = tk.string.lstrip("rRbBuUfF")
+        triple = body[:3] in (TQ["'"], TQ['"'])
+        q = body[:3] if triple else body[:1]
+        inner = body[len(q):-len(q)]
+        other3 = TQ['"'] if q[0] == "'" else TQ["'"]
+        if "\t" in inner:
+            feats.add("m_raw_tab")
+        if other3 in inner:
+            feats.add("m_mixed_triple_line" if triple else "m_phantom_triple")
+        if triple and "\\" + q[0] + q[0] in inner:
+            feats.add("m_escaped_quote_run")
+        # a '#' inside a one-line literal followed, on the same physical line, by the opener of a multi-line literal
+        if tk.start[0] == tk.end[0] and "#" in inner:
+            for other in strings:
+                if other.start[0] == tk.end[0] and other.start > tk.start and other.end[0] > other.start[0]:
+                    feats.add("m_hash_then_triple")
+    return feats
+
+
+def shard_margin(task):
+    seed, n, flags, known_ids, emit = task
+    core.setup_repo()
+    warnings.simplefilter("ignore")
+    ev = core.Evidence()
+
+    def check(case):
+        _hang_guard()
+        try:
+            margin_reference(case)
+        except SyntaxError:
+            ev.rejected += 1
+            return
+        meta = case["meta"]
+        nt = bool(case["margin"]) and bool(set(meta["feats"]) & {"multiline-string", "backslash-newline-in-string",
+                                                                   "backslash-continuation", "bracket-continuation",
+                                                                   "implicit-concat"})
+        labels = ["mar:" + meta["margin_kind"], "mar:len=%d" % len(case["margin"]), "tag:" + case["tag"], "str:" + meta["strmode"],
+                  "cont:" + meta["contmode"]] + ["m:" + f for f in meta["feats"]]
+        ev.case(key=(case["block"], case["tag"], case["closing"]), nontrivial=nt, labels=labels)
+        if nt and len(case["block"]) < 300 and emit and not ev.samples:
+            ev.sample({k: case[k] for k in ("part", "block", "margin", "tag", "closing", "vars")}, "margin%d" % (seed % 2))
+        try:
+            check_margin(case)
+        except Failure as f:
+            hit = [MARGIN_FEATURE_TO_ID[x] for x in sorted(margin_features(case["block"])) if x in MARGIN_FEATURE_TO_ID]
+            f.info["kid"] = next((h for h in hit if h in known_ids), None)
+            raise
+
+    fails, found = core.hyp_search(margin_strategy(flags), check, ev, seed, n, classify=lambda f: f.info.get("kid"),
+                                   known={k: 1 for k in known_ids})
+    return ev, fails
+
+
+def _probe_margin(probe, fid_):
+    """probe = (block with '~' marking literal-content lines, variables, margins, tags, string-line modes)"""
+    block, vars_, margins, tags, strmodes = probe
+    for margin in margins:
+        for tag in tags:
+            for strmode in strmodes:
+                lines = []
+                for ln in block.split("\n"):
+                    kind = "str" if ln.startswith("~") else "code"
+                    lines.append([kind, 0, ln[1:] if kind == "str" else ln])
+                text = render_lines(lines, margin, "    ", strmode, "aligned")
+                check_margin({"part": "margin", "block": text, "margin": margin, "tag": tag, "closing": "\n%>", "vars": vars_},
+                             finding=fid_)
+
+
+PROBE_RUNNERS["margin"] = _probe_margin
+MARGIN_FEATURE_TO_ID = {fl: fid_ for fid_, f in FINDINGS.items() for fl in f["flags"] if fl.startswith("m_")}
+
+
+def tasks_margin(ctx):
+    disabled, fails, counts = run_probes("margin")
+    for f in fails:
+        ctx.fail(f)
+    for k, v in counts.items():
+        ctx.ev.excluded_known[k] += v
+    ctx.ev.notes["margin_flags_off"] = sorted(disabled)
+    flags = sorted(set(MARGIN_FLAGS) - set(disabled))
+    n = ctx.pick(160, 1900)
+    tasks = [("margin", (ctx.shard_seed(i, "margin"), n, flags, [], i < 2)) for i in range(16)]
+    if disabled:
+        tasks += [("margin", (ctx.shard_seed(i, "marginfull"), ctx.pick(32, 300), list(MARGIN_FLAGS), sorted(FINDINGS), False))
+                  for i in range(16)]
+    return tasks
+
+
+def shard_any(task):
+    kind, args = task
+    return {"expr": shard_expr, "block": shard_block, "margin": shard_margin}[kind](args)
 
 
 # ---------------------------------------------------------------------------------------------------------
 def run(ctx):
+    core.setup_repo()
+    warnings.simplefilter("ignore")
     part = getattr(ctx, "part", None)
-    if part in (None, "expr"):
-        run_expr(ctx)
+    tasks = []
+    off_stmt = set()
     if part in (None, "block"):
-        run_block(ctx)
+        d_expr, _, _ = run_probes("expr") if part == "block" else (set(), None, None)
+        tb, off_stmt = tasks_block(ctx, d_expr)
+        tasks += tb
+    if part in (None, "expr"):
+        tasks += tasks_expr(ctx, off_stmt)
+    if part in (None, "margin"):
+        tasks += tasks_margin(ctx)
+    # one pool for all shards, the slow kinds first
+    order = {"block": 0, "expr": 1, "margin": 2}
+    tasks.sort(key=lambda t: (order[t[0]], -t[1][1]))
+    ctx.pmap(shard_any, tasks)
     ctx.ev.notes["labels_all"] = dict(ctx.ev.labels)
+    ctx.ev.notes["findings_with_failing_probes"] = sorted(k for k in ctx.ev.excluded_known)
 
 
 def classify(f):
@@ -669,6 +1170,8 @@ def replay(case):
                        finding=case.get("finding"), strict=case.get("strict", True))
         elif case["part"] == "block":
             check_block(case["src"], case["env"], case["outs"], finding=case.get("finding"))
+        elif case["part"] == "margin":
+            check_margin(case, finding=case.get("finding"))
     except Failure as f:
         return f
     return None
